@@ -86,7 +86,7 @@ pub fn complete(
                     };
                 } else if pos_allows_hyphen(current_cmd, pos_index) {
                     (next_state, pos_index) =
-                        parse_positional(current_cmd, pos_index, is_escaped, current_state);
+                        parse_hyphen_value(current_cmd, pos_index, is_escaped, current_state);
                 }
             }
         } else if let Some(short) = arg.to_short() {
@@ -97,7 +97,7 @@ pub fn complete(
                 }
             } else if pos_allows_hyphen(current_cmd, pos_index) {
                 (next_state, pos_index) =
-                    parse_positional(current_cmd, pos_index, is_escaped, current_state);
+                    parse_hyphen_value(current_cmd, pos_index, is_escaped, current_state);
             }
         } else {
             match current_state {
@@ -665,6 +665,21 @@ fn parse_positional<'a>(
             "This branch won't be hit,
             because ParseState::Opt should not be seen as a positional argument and passed to this function."
         ),
+    }
+}
+
+/// Parse a value that looks like a flag. Return the new state and the new positional index.
+///
+/// Like the parser, a pending option takes it before a positional that allows hyphen values.
+fn parse_hyphen_value<'a>(
+    cmd: &clap::Command,
+    pos_index: usize,
+    is_escaped: bool,
+    state: ParseState<'a>,
+) -> (ParseState<'a>, usize) {
+    match state {
+        ParseState::Opt((opt, count)) => (parse_opt_value(opt, count), pos_index),
+        state => parse_positional(cmd, pos_index, is_escaped, state),
     }
 }
 
